@@ -169,6 +169,10 @@ template <class G, class L> struct Subject {
         hist.push_back(op);
         lastWasNoop = isNoop(op);
         std::string what;
+        // whether setEdgeLabel must reject is decided by what the graph itself says is an edge (if that disagrees with the
+        // history, it is C01/C02's verdict, reported by the structural observers)
+        bool realHas = true;
+        if (op.kind == SETLABEL) realHas = g.hasEdge(op.i, op.j);
         Exc ex = classify([&] {
             switch (op.kind) {
             case ADD_L: g.addEdge(op.i, op.j, labelOf<L>(op.stamp), op.force); break;
@@ -194,7 +198,7 @@ template <class G, class L> struct Subject {
             case DEDUP: g.removeDuplicateEdges(); break;
             }
         }, &what);
-        bool expectThrow = (op.kind == SETLABEL && !m.has(op.i, op.j));
+        bool expectThrow = (op.kind == SETLABEL && !realHas);
         if (expectThrow) {
             if (ex != EX_INVALID_ARGUMENT)
                 return std::string("setEdgeLabel on a missing edge: expected std::invalid_argument, got ") + excName(ex);
@@ -236,7 +240,9 @@ template <class G, class L> struct Subject {
             break;
         }
         case RESIZE: m.n += op.k; break;
-        case SETLABEL: m.e[m.key(op.i, op.j)].stamp = op.stamp; break;
+        case SETLABEL:
+            if (m.has(op.i, op.j)) m.e[m.key(op.i, op.j)].stamp = op.stamp;
+            break;
         case DEDUP:
             for (auto &kv : m.e) kv.second.copies = 1;
             break;
@@ -500,7 +506,7 @@ template <class G, class L> struct Monitor {
             bool noop = s.isNoop(op);
             // "changes nothing" is stated for re-adding an existing edge, removing an absent one and (C07) rejected calls;
             // other calls that happen to have nothing to do are only held to the model, not to list order
-            bool exactNoop = noop && (op.kind == ADD_L || op.kind == ADD_D || op.kind == REMOVE || op.kind == SETLABEL);
+            bool exactNoop = noop && cfg.obsStruct && (op.kind == ADD_L || op.kind == ADD_D || op.kind == REMOVE || op.kind == SETLABEL);
             if (exactNoop) before = orderedLists(s.g);
             std::string err = s.apply(op);
             ++calls;
@@ -523,6 +529,18 @@ template <class G, class L> struct Monitor {
             bool dup = false;
             for (auto &kv : s.m.e)
                 if (kv.second.copies > 1) dup = true;
+            if (!cfg.obsStruct) {
+                // label-only mode (C03): once the graph's own idea of which pairs are edges departs from the history, the
+                // execution is C01/C02's to judge; nothing further is claimed about labels on it
+                bool diverged = false;
+                for (VertexIndex a = 0; a < s.m.n && !diverged; ++a)
+                    for (VertexIndex b = 0; b < s.m.n && !diverged; ++b)
+                        if (s.g.hasEdge(a, b) != s.m.has(a, b)) diverged = true;
+                if (diverged || s.g.getSize() != s.m.n) {
+                    R.count("histories_abandoned_edge_set_diverged_from_history");
+                    return;
+                }
+            }
             std::string e = checkAll(s, !dup);
             if (!e.empty()) {
                 R.violation(cls + "/" + kindName(op.kind) + "/" + observerOf(e), "after " + op.str() + ": " + e);
@@ -585,8 +603,36 @@ template <class G, class L> struct Monitor {
             }
         return true;
     }
+    // neighbour lists and hasEdge tell the same story, each neighbour listed once (force is off in this mode)
+    static bool selfConsistent(const G &g) {
+        size_t n = g.getSize();
+        size_t entries = 0, pairs = 0;
+        for (VertexIndex i = 0; i < n; ++i) {
+            std::set<VertexIndex> seen;
+            for (auto j : g.getOutNeighbours(i)) {
+                ++entries;
+                if (j >= n || !seen.insert(j).second || !g.hasEdge(i, j)) return false;
+                if (!directed && !g.hasEdge(j, i)) return false;
+            }
+            for (VertexIndex j = 0; j < n; ++j)
+                if (g.hasEdge(i, j)) {
+                    ++pairs;
+                    if (!seen.count(j)) return false;
+                }
+        }
+        if (entries != pairs) return false;
+        size_t loops = 0;
+        for (VertexIndex i = 0; i < n; ++i) loops += g.hasEdge(i, i);
+        return g.getEdgeNumber() == (directed ? pairs : (pairs - loops) / 2 + loops);
+    }
     // byConstruction: what the generator intended (equal routes / a perturbed copy); only used for the coverage counters
     bool eqAll(const G &a, const G &b, bool byConstruction, const char *what, const std::string &ctx) {
+        if (!selfConsistent(a) || !selfConsistent(b)) {
+            // lists, hasEdge and the edge count contradict each other: "the set of edges" is not well defined for this
+            // object, which is C01/C02/C04's verdict; operator== is not judged on it
+            R.count("pairs_skipped_graph_internally_inconsistent");
+            return true;
+        }
         bool want = observablyEqual(a, b);
         bool r1 = (a == b), r2 = (b == a), n1 = (a != b), n2 = (b != a);
         R.count(want ? "equality_checks_expected_equal" : "equality_checks_expected_unequal");
